@@ -9,7 +9,7 @@ codec in ber/der/per/uper/oer/jer/xer:
 For the modelled codecs the Lean model decoder for V1 is run on the same V2 bytes and must agree."""
 from .. import core, impl
 from ..codecs import MODELLED, py_equal, impl_answer_dec
-from ..extend import extend, project
+from ..extend import extend, project, add_groups
 from ..gen import Gen, Opts, module_text, ty_sx, val_sx, is_modelled
 
 CODECS = ["ber", "der", "per", "uper", "oer", "jer", "xer"]
@@ -110,7 +110,10 @@ def run(ctx):
         tries += 1
         g = Gen(rng, opts)
         t1 = g.type()
-        t2, n = extend(g, t1, rng.randint(1, 4))
+        with_groups = rng.random() < 0.35
+        if with_groups:
+            add_groups(rng, t1)      # version brackets [[ ]] among the V1 additions / alternatives
+        t2, n = extend(g, t1, rng.randint(1, 4), groups=with_groups)
         if n == 0:
             continue
         vals2 = [g.value(t2) for _ in range(3)]
@@ -120,6 +123,15 @@ def run(ctx):
     n = 28
     parts = core.parallel_map(work, [cases[k::n] for k in range(n)])
     core.merge(ctx, parts)
+    # regression vector of a repaired defect: DEFAULT values inside a version-bracket group
+    v1 = 'M DEFINITIONS AUTOMATIC TAGS ::= BEGIN A ::= SEQUENCE { h NULL, ... } END'
+    v2 = "M DEFINITIONS AUTOMATIC TAGS ::= BEGIN A ::= SEQUENCE { h NULL, ..., [[ n5 BIT STRING DEFAULT '101'B, n6 OCTET STRING DEFAULT 'AB'H, n7 BOOLEAN DEFAULT TRUE ]] } END"
+    for codec in ('ber', 'der', 'jer', 'xer'):
+        s1, s2 = impl.compile_text(v1, codec)[1], impl.compile_text(v2, codec)[1]
+        d = impl.decode(s2, 'A', impl.encode(s1, 'A', {'h': None})[1])
+        ctx.case(('regression-group-default', codec))
+        if not (d[0] == 'ok' and d[1].get('n6') == b'\xab' and d[1].get('n7') is True and tuple(d[1].get('n5', ())) == (b'\xa0', 3)):
+            ctx.violation('%s: a V1 encoding decoded under V2 does not give the DEFAULT values of an absent addition group' % codec, {'codec': codec, 'v1': v1, 'v2': v2, 'got': repr(d[1:])[:400]})
     # witness of the known finding
     v1 = 'M DEFINITIONS AUTOMATIC TAGS ::= BEGIN A ::= SEQUENCE OF CHOICE { n NULL, ... } END'
     v2 = 'M DEFINITIONS AUTOMATIC TAGS ::= BEGIN A ::= SEQUENCE OF CHOICE { n NULL, ..., k1 BOOLEAN } END'
